@@ -7,7 +7,7 @@ from lib import vlib
 
 BASE = dict(NFlows="2", NNodes="2", EmptyFlows="{}", MaxSteps="4", MaxResumes="2", MaxCalls="4",
             FaultKinds="{}", MaxFaults="0")
-FAULTS = '{"flow_gone", "node_gone", "wait_gone"}'
+FAULTS = '{"flow_gone", "parent_gone", "node_gone", "wait_gone"}'
 
 
 def gen_plan(ctx, prop):
@@ -29,6 +29,9 @@ def gen_plan(ctx, prop):
     elif prop == "C10":
         plans.append(("faults1", dict(BASE, FaultKinds=FAULTS, MaxFaults="1"), n))
         plans.append(("nofault", dict(BASE, MaxResumes="1"), n // 3))
+        # every behaviour of two one-node flows in which the flow of the run paused ABOVE the waiting one disappears
+        plans.append(("parent-gone-2x1", dict(BASE, NNodes="1", MaxSteps="3", MaxCalls="3", TrigKinds='{"manual"}', ResumeKinds='{"msg", "expiration"}',
+                                              FaultKinds='{"parent_gone"}', MaxFaults="1"), None))
         if not q:
             plans.append(("faults2", dict(BASE, FaultKinds=FAULTS, MaxFaults="2", MaxCalls="5"), n))
     if not q:
@@ -39,9 +42,21 @@ def gen_plan(ctx, prop):
 
 
 def mc_constants(ctx, prop):
+    """The bounded configurations TLC checks exhaustively: [constants]; sizes measured on this machine (16 workers):
+    quick ones 0.1-0.4 M distinct states (< 40 s); thorough ones 0.06-10 M (5 s - 2 min each, liveness included for C05)."""
     if ctx.tier == "quick":
-        return dict(MaxCalls="2") if prop == "C05" else {}
-    return dict(NFlows="2", MaxCalls="3" if prop != "C01" else "4", MaxSteps="3")
+        return [dict(MaxCalls="2") if prop == "C05" else {}]
+    manual = {"TrigKinds": '{"manual"}'}
+    if prop == "C01":
+        return [dict(MaxSteps="5", MaxResumes="3", MaxCalls="4"),                       # 1 flow x 2 nodes, longer histories: 1.9 M
+                dict(NFlows="2", MaxSteps="2", MaxCalls="3", **manual),                 # 2 flows x 2 nodes: 7.0 M
+                dict(NFlows="2", NNodes="1", MaxSteps="4", MaxCalls="4")]               # 2 flows x 1 node, all triggers: 0.06 M
+    if prop == "C05":
+        return [dict(MaxSteps="5", MaxResumes="3", MaxCalls="4"),                       # 1.9 M, with Terminates: ~2 min
+                dict(NFlows="2", NNodes="1", MaxSteps="4", MaxCalls="4"),
+                dict(MaxSteps="1", MaxResumes="0", MaxCalls="3"), dict(MaxSteps="2", MaxResumes="1", MaxCalls="3")]
+    return [dict(NFlows="2", MaxSteps="2", MaxCalls="3", **manual),                     # C10 incl. parent_gone: 10.4 M, 90 s
+            dict(MaxCalls="4", MaxFaults="2")]                                          # two faults in a row: 0.9 M
 
 
 def key_for(name, line):
@@ -124,10 +139,15 @@ def run(ctx, prop):
         return 0
 
     # (C) the specification itself: bounded exhaustive model checking of the property's formulas
-    mc = ctx.tlc("Engine", f"EngineMC_{prop}.cfg", timeout=3000, constants=mc_constants(ctx, prop), coverage=True)
+    mcs = [ctx.tlc("Engine", f"EngineMC_{prop}.cfg", timeout=3000, constants=c, coverage=(i == 0)) for i, c in enumerate(mc_constants(ctx, prop))]
+    mc = mcs[0]
+    for other in mcs[1:]:
+        mc.distinct += other.distinct
+        mc.generated += other.generated
+        mc.depth = max(mc.depth, other.depth)
     never = sorted(a for a, (d, t) in mc.coverage.items() if t == 0)
     if never:
-        ctx.notes.append("actions never taken in the MC config: " + ",".join(never))
+        ctx.notes.append("actions never taken in the first MC config: " + ",".join(never))
 
     # (A) behaviours exported by TLC, replayed on the real engine
     plans = gen_plan(ctx, prop)
